@@ -72,6 +72,7 @@ def main(argv):
             mod.init(ctx)
             faulthandler.cancel_dump_traceback_later()
             _emit(f, {"init_s": _perf() - t0, "shard": shard})
+            t0 = _perf()  # the soft budget covers exploration, not interpreter start-up / JIT
             done = 0
             for i, role in work:
                 if _perf() - t0 > float(cfg["soft_s"]):
